@@ -31,6 +31,9 @@ type ndSite struct {
 	Key   string `json:"key"`  // pkg|func|kind#ordinal
 	Kind  string `json:"kind"` // map-range, maps-iter, global-rand, crypto-rand, clock, pid, hostname, tempname, cwd, goroutine, select, numcpu
 	Hash  string `json:"hash"`
+	// FnHash is the hash of the whole enclosing function; the expectation file sets it for classes whose
+	// justification depends on code outside the statement (collectSort: the sort that follows the loop).
+	FnHash string `json:"fnhash,omitempty"`
 	Class string `json:"class"`
 	Note  string `json:"note,omitempty"`
 	Text  string `json:"-"`
@@ -137,6 +140,7 @@ func inventory(rel string, pi *pkgInfo) []ndSite {
 				body = d
 			}
 			counts := map[string]int{}
+			fnHash, _ := stmtHash(pi.fset, decl)
 			add := func(kind string, n ast.Node) {
 				counts[kind]++
 				h, text := stmtHash(pi.fset, n)
@@ -144,7 +148,7 @@ func inventory(rel string, pi *pkgInfo) []ndSite {
 				if pkg == "." {
 					pkg = "main"
 				}
-				sites = append(sites, ndSite{Key: fmt.Sprintf("%s|%s|%s#%d", pkg, fn, kind, counts[kind]), Kind: kind, Hash: h, Text: text,
+				sites = append(sites, ndSite{Key: fmt.Sprintf("%s|%s|%s#%d", pkg, fn, kind, counts[kind]), Kind: kind, Hash: h, FnHash: fnHash, Text: text,
 					Pos: pi.fset.Position(n.Pos()).String()})
 			}
 			var stack []ast.Node
@@ -268,6 +272,9 @@ func init() {
 			case e.Hash != s.Hash:
 				s.Class = "unclassified"
 				problems = append(problems, fmt.Sprintf("site %s at %s changed (hash %s, classified at %s as %s)", s.Key, s.Pos, s.Hash, e.Hash, e.Class))
+			case e.FnHash != "" && e.FnHash != s.FnHash:
+				s.Class = "unclassified"
+				problems = append(problems, fmt.Sprintf("the function around site %s at %s changed (its class %s depends on the code after the statement)", s.Key, s.Pos, e.Class))
 			default:
 				s.Class, s.Note = e.Class, e.Note
 			}
@@ -275,7 +282,7 @@ func init() {
 		if dump := os.Getenv("GV_NONDET_DUMP"); dump != "" {
 			var sb strings.Builder
 			for _, s := range sites {
-				fmt.Fprintf(&sb, "=== %s  [%s]  %s  class=%s\n%s\n\n", s.Key, s.Hash, s.Pos, s.Class, s.Text)
+				fmt.Fprintf(&sb, "=== %s  [%s]  fn[%s]  %s  class=%s\n%s\n\n", s.Key, s.Hash, s.FnHash, s.Pos, s.Class, s.Text)
 			}
 			os.WriteFile(dump, []byte(sb.String()), 0o644)
 		}
